@@ -528,3 +528,16 @@ def return_leaves(fn):
             for leaf in arms(r.value):
                 out.append((leaf, guards_of(leaf, fn)))
     return out
+
+
+def resolve(fn, e, depth=3):
+    """an expression with names that are assigned exactly once in fn replaced by what they are assigned (the reverse of
+    'introduce explaining variable', for values the normaliser does not substitute because they are not pure)"""
+    if depth == 0 or e is None:
+        return e
+    if isinstance(e, ast.Name):
+        defs = [s for s in walk_func(fn) if isinstance(s, ast.Assign) and len(s.targets) == 1 and isinstance(s.targets[0], ast.Name) and s.targets[0].id == e.id]
+        others = [n for n in walk_func(fn) if isinstance(n, ast.Name) and n.id == e.id and isinstance(n.ctx, (ast.Store, ast.Del))]
+        if len(defs) == 1 and len(others) == 1:
+            return resolve(fn, defs[0].value, depth - 1)
+    return e
